@@ -68,6 +68,8 @@ def concretize(v, model, maxlen=4096):
         return ("__obj__", dict((k, concretize(x, model)) for k, x in v.__dict__["_f"].items()))
     if isinstance(v, HSymList):
         return concretize(v.as_seq(), model)
+    if type(v).__name__ == "HSink":
+        return ("__sink__",)
     if isinstance(v, HMap):
         out = {}
         for k in range(0, 80):
@@ -153,6 +155,15 @@ def contract_view(v):
 def native_replay(contract, config, inputs):
     """Run the real function on concrete inputs and evaluate the contract natively.
     returns dict(outcome=..., violated=[labels], result=..., exception=...)"""
+    if getattr(contract, "native_check", None) is not None:
+        T.NATIVE = True
+        try:
+            r = contract.native_check(dict(config or {}), dict((k, nativize(v)) for k, v in inputs.items()))
+        finally:
+            T.NATIVE = False
+        if r is None:
+            return {"violated": [], "result": None, "exception": None, "requires_ok": False}
+        return {"violated": list(r.get("violated", [])), "result": r.get("result", "ran"), "exception": r.get("exception"), "requires_ok": True}
     mod = extract.import_repo_module(contract.modname)
     fn = mod
     for part in contract.qualname.split("."):
